@@ -16,7 +16,7 @@ pub fn props() -> Vec<Prop> {
             id: "C14",
             run: c14,
             tools: None,
-            rule: "every string over {/,.,a,b} up to length 10 (quick) / 13 (thorough) is enumerated and sys::clean + PathExt::clean compared with a byte-level port of Go's path.Clean, plus idempotence/absoluteness/non-empty checks; seeded random strings over a wide alphabet (multi-byte, spaces, backslash) on top. distinct_nontrivial = distinct (set of clean rules the input triggers, output component count, output kind) classes among inputs that clean() changed, counted with a hash set.",
+            rule: "every string over {/,.,a,b} up to length 10 (quick) / 14 (thorough) is enumerated and sys::clean + PathExt::clean compared with a byte-level port of Go's path.Clean, plus idempotence/absoluteness/non-empty checks; seeded random strings over a wide alphabet (multi-byte, spaces, backslash) on top. distinct_nontrivial = distinct (set of clean rules the input triggers, output component count, output kind) classes among inputs that clean() changed, counted with a hash set.",
             assumptions: &["reference = port of the published Go algorithm, written without std::path", "inputs are UTF-8"],
             shards_quick: 8,
             shards_thorough: 16,
@@ -171,7 +171,7 @@ fn c14_one(s: &str, rep: &mut Report) {
 }
 
 fn c14(ctx: &Ctx, rep: &mut Report) {
-    let max = if ctx.thorough { 13 } else { 10 };
+    let max = if ctx.thorough { 14 } else { 10 };
     for_all_strings(&["/", ".", "a", "b"], max, |i, s| {
         if ctx.mine(i) {
             c14_one(s, rep);
